@@ -42,6 +42,14 @@
 (*   memoises its result until the next Add() and hands the same slice to  *)
 (*   every caller; FALSE (the pinned commit) builds a fresh slice per call.*)
 (*                                                                         *)
+(* Part F: the metrics store's RWMutex (sync.RWMutex: a pending Lock()     *)
+(*   blocks new RLock() calls).  Store.AllMetrics holds the read lock      *)
+(*   while it visits every window; writers (Add, RemovePeer,               *)
+(*   RemovePeerMetrics) ask for the write lock at any time.  NestedRead =  *)
+(*   TRUE is the design in which AllMetrics calls PeerLatest (which takes  *)
+(*   the read lock again) for every entry; FALSE (the pinned commit) reads *)
+(*   the windows directly.                                                 *)
+(*                                                                         *)
 (* The tracker's operation table is modelled in Tracker.tla.               *)
 (***************************************************************************)
 EXTENDS Integers, Sequences, FiniteSets, TLC
@@ -59,13 +67,16 @@ CONSTANTS MaxAlerts,          \* reset threshold (code: 1000)
           NChecks,            \*         checks per goroutine
           MaxVer,             \*         metrics added to the window during the scenario
           DistShared,
-          Part                \* "alerts" | "informer" | "lifecycle" | "fanout" | "accrual"
+          NEntries,           \* part F: (name, peer) entries AllMetrics visits
+          NestedRead,
+          Part                \* "alerts" | "informer" | "lifecycle" | "fanout" | "accrual" | "rwlock"
 
 VARIABLES alerts, lock, rd, wr, nread, nwritten, results, panicked,   \* part A
           client, gm, sh, gres,                                       \* part B
           wg, rg, sd, doneCh, isReady, bg, cancelled, slock, usr,     \* part C
           li, lv, gr, pushed, lvrace,                                 \* part D
           ver, cache, slices, ck, checks,                             \* part E
+          rw, fr, fw,                                                 \* part F
           act
 
 varsA == <<alerts, lock, rd, wr, nread, nwritten, results, panicked>>
@@ -73,9 +84,10 @@ varsB == <<client, gm, sh, gres>>
 varsC == <<wg, rg, sd, doneCh, isReady, bg, cancelled, slock, usr>>
 varsD == <<li, lv, gr, pushed, lvrace>>
 varsE == <<ver, cache, slices, ck, checks>>
+varsF == <<rw, fr, fw>>
 vars  == <<alerts, lock, rd, wr, nread, nwritten, results, panicked, client, gm, sh, gres,
            wg, rg, sd, doneCh, isReady, bg, cancelled, slock, usr,
-           li, lv, gr, pushed, lvrace, ver, cache, slices, ck, checks, act>>
+           li, lv, gr, pushed, lvrace, ver, cache, slices, ck, checks, rw, fr, fw, act>>
 
 Reverse(s) == [i \in 1..Len(s) |-> s[Len(s) + 1 - i]]
 Zeros(n)   == [i \in 1..n |-> 0]
@@ -93,6 +105,8 @@ Init ==
     /\ ver = 1 /\ cache = 0 /\ slices = <<>>
     /\ ck = [t \in 1..NCheckers |-> [pc |-> "idle", n |-> 0, v0 |-> 0, s |-> 0, from |-> <<>>]]
     /\ checks = {}
+    /\ rw = [readers |-> 0, wpend |-> FALSE, wheld |-> FALSE]
+    /\ fr = [pc |-> "idle", i |-> 0] /\ fw = "idle"
     /\ act = [name |-> "Init"]
 
 (***************************************************************************)
@@ -141,7 +155,7 @@ WAppendUnlock ==
     /\ act' = [name |-> "WAppendUnlock", t |-> "writer"]
     /\ UNCHANGED <<rd, nread, results, panicked>>
 
-NextA == (RSize \/ RLock \/ RCopyUnlock \/ WLock \/ WAppendUnlock) /\ UNCHANGED <<varsB, varsC, varsD, varsE>>
+NextA == (RSize \/ RLock \/ RCopyUnlock \/ WLock \/ WAppendUnlock) /\ UNCHANGED <<varsB, varsC, varsD, varsE, varsF>>
 
 \* --- properties (C18: no panic, no torn result) ---
 NoIndexPanic == ~panicked
@@ -177,7 +191,7 @@ SNil ==
     /\ act' = [name |-> "SNil", t |-> "shut"]
     /\ UNCHANGED <<gm, gres>>
 
-NextB == (GCheck \/ GUse \/ SNil) /\ UNCHANGED <<varsA, varsC, varsD, varsE>>
+NextB == (GCheck \/ GUse \/ SNil) /\ UNCHANGED <<varsA, varsC, varsD, varsE, varsF>>
 
 (***************************************************************************)
 (* Part C                                                                  *)
@@ -298,7 +312,7 @@ CUserWaitDone ==
 
 NextC == (CTimeout \/ CConsReady \/ CCtxDone \/ CPeersErr \/ CPeersOk \/ CBgExit \/ CReturn \/ CUserCall
           \/ CAutoLock \/ CStopped \/ CWaitDone \/ CUserLock \/ CUserStopped \/ CUserWaitDone)
-         /\ UNCHANGED <<varsA, varsB, varsD, varsE>>
+         /\ UNCHANGED <<varsA, varsB, varsD, varsE, varsF>>
 
 \* --- properties (C18: no deadlock) ---
 \* no goroutine waits for itself: Shutdown's wg.Wait() must not run on a goroutine counted in wg
@@ -343,7 +357,7 @@ DPush(k) ==
     /\ act' = [name |-> "DPush", t |-> "push", k |-> k]
     /\ UNCHANGED <<li, lv, lvrace>>
 
-NextD == (DIter \/ \E k \in Informers : DStart(k) \/ DPush(k)) /\ UNCHANGED <<varsA, varsB, varsC, varsE>>
+NextD == (DIter \/ \E k \in Informers : DStart(k) \/ DPush(k)) /\ UNCHANGED <<varsA, varsB, varsC, varsE, varsF>>
 
 \* --- properties (C18: no race, no torn result) ---
 NoLoopVarRace == ~lvrace
@@ -399,7 +413,7 @@ EInPlace(t) ==
     /\ act' = [name |-> "EInPlace", t |-> "check", k |-> t]
     /\ UNCHANGED <<ver, cache>>
 
-NextE == (EAdd \/ \E t \in Checkers : EDist(t) \/ EMean(t) \/ EInPlace(t)) /\ UNCHANGED <<varsA, varsB, varsC, varsD>>
+NextE == (EAdd \/ \E t \in Checkers : EDist(t) \/ EMean(t) \/ EInPlace(t)) /\ UNCHANGED <<varsA, varsB, varsC, varsD, varsF>>
 
 \* --- properties (C18: no race, no torn result) ---
 \* a slice that is overwritten in place belongs to one checker: nobody else holds it, and it is not the memo
@@ -412,10 +426,73 @@ ScratchIsPrivate ==
 VerdictFromWindow ==
     \A c \in checks : \E v \in c.v0..c.v1 : c.from = <<"delta", v>>
 
+(***************************************************************************)
+(* Part F                                                                  *)
+(* rw : sync.RWMutex: number of read holders, a writer waiting in Lock(),  *)
+(*      a writer holding the lock.  RLock() goes through only when no      *)
+(*      writer holds the lock or waits for it (writer preference).         *)
+(* fr : the AllMetrics caller: idle -> outer (read lock held) -> for each  *)
+(*      entry: [nested: want -> inner -> outer] -> done                    *)
+(* fw : a writer (Store.Add / RemovePeer / RemovePeerMetrics)              *)
+(***************************************************************************)
+CanRLock == ~rw.wheld /\ ~rw.wpend
+
+FROuter ==
+    /\ fr.pc = "idle" /\ CanRLock
+    /\ rw' = [rw EXCEPT !.readers = @ + 1] /\ fr' = [pc |-> "outer", i |-> 0]
+    /\ act' = [name |-> "FROuter", t |-> "allmetrics"]
+    /\ UNCHANGED fw
+\* visit one entry: directly (window.Latest) or through PeerLatest, which asks for the read lock again
+FRVisit ==
+    /\ fr.pc = "outer" /\ fr.i < NEntries
+    /\ fr' = IF NestedRead THEN [fr EXCEPT !.pc = "want"] ELSE [fr EXCEPT !.i = @ + 1]
+    /\ act' = [name |-> "FRVisit", t |-> "allmetrics"]
+    /\ UNCHANGED <<rw, fw>>
+FRInner ==
+    /\ fr.pc = "want" /\ CanRLock
+    /\ rw' = [rw EXCEPT !.readers = @ + 1] /\ fr' = [fr EXCEPT !.pc = "inner"]
+    /\ act' = [name |-> "FRInner", t |-> "allmetrics"]
+    /\ UNCHANGED fw
+FRInnerUnlock ==
+    /\ fr.pc = "inner"
+    /\ rw' = [rw EXCEPT !.readers = @ - 1] /\ fr' = [pc |-> "outer", i |-> fr.i + 1]
+    /\ act' = [name |-> "FRInnerUnlock", t |-> "allmetrics"]
+    /\ UNCHANGED fw
+FRUnlock ==
+    /\ fr.pc = "outer" /\ fr.i = NEntries
+    /\ rw' = [rw EXCEPT !.readers = @ - 1] /\ fr' = [fr EXCEPT !.pc = "done"]
+    /\ act' = [name |-> "FRUnlock", t |-> "allmetrics"]
+    /\ UNCHANGED fw
+\* Lock(): announce, then wait until the read holders are gone
+FWRequest ==
+    /\ fw = "idle" /\ ~rw.wpend /\ ~rw.wheld
+    /\ rw' = [rw EXCEPT !.wpend = TRUE] /\ fw' = "pending"
+    /\ act' = [name |-> "FWRequest", t |-> "writer"]
+    /\ UNCHANGED fr
+FWAcquire ==
+    /\ fw = "pending" /\ rw.readers = 0
+    /\ rw' = [rw EXCEPT !.wpend = FALSE, !.wheld = TRUE] /\ fw' = "held"
+    /\ act' = [name |-> "FWAcquire", t |-> "writer"]
+    /\ UNCHANGED fr
+FWUnlock ==
+    /\ fw = "held"
+    /\ rw' = [rw EXCEPT !.wheld = FALSE] /\ fw' = "done"
+    /\ act' = [name |-> "FWUnlock", t |-> "writer"]
+    /\ UNCHANGED fr
+
+NextF == (FROuter \/ FRVisit \/ FRInner \/ FRInnerUnlock \/ FRUnlock \/ FWRequest \/ FWAcquire \/ FWUnlock)
+         /\ UNCHANGED <<varsA, varsB, varsC, varsD, varsE>>
+
+\* --- properties (C18: no deadlock) ---
+\* lock discipline: nobody asks for the read lock while holding it
+NoReentrantRLock == fr.pc # "want"
+\* somebody can always move until both calls have returned
+StoreNeverStuck == (fr.pc = "done" /\ fw = "done") \/ ENABLED NextF
+
 NoNilUse == gres # "nilpanic"
 
 Next == CASE Part = "alerts" -> NextA [] Part = "informer" -> NextB [] Part = "fanout" -> NextD
-          [] Part = "accrual" -> NextE [] OTHER -> NextC
+          [] Part = "accrual" -> NextE [] Part = "rwlock" -> NextF [] OTHER -> NextC
 Spec == Init /\ [][Next]_vars
 
 \* negated reachability goals (witness generation)
